@@ -71,8 +71,9 @@ func c10r6(p *model.Prog, r *report.Result) {
 	fn := p.Func("pkg/hls", "updateTargetDurationInM3u8")
 	content := fn.Params[0]
 	bidx := p.FuncObj("bytes", "Index")
+	bidxb := p.FuncObj("bytes", "IndexByte")
 	var l, n ssa.Value
-	for _, ci := range model.CallsTo(fn, bidx) {
+	for _, ci := range model.CallsTo(fn, bidx, bidxb) {
 		a0 := ci.Common().Args[0]
 		if a0 == ssa.Value(content) {
 			l = ci.Value()
